@@ -260,10 +260,27 @@ def run(ctx):
                  (RP, F("ovni_rproc", "procdir_final")): ("str", "FINAL"),
                  (RP, F("ovni_rproc", "move_to_final")): INT(relocating),
                  (RT, F("ovni_rthread", "tid")): INT(5), (RT, F("ovni_rthread", "meta")): PTR("META")}
-        cts = prog.fn("create_trace_stream", OV)
+        # entered through exported functions (ovni_thread_init opens the stream, ovni_attr_flush stores the
+        # metadata), with the private helpers interpreted in place whatever their parameters are
+        ti4 = prog.fn("ovni_thread_init", OV)
+        af4 = prog.fn("ovni_attr_flush", OV)
         tms = prog.fn("thread_metadata_store", OV)
-        o1 = [o for o in ex4.run(cts, [], store) if o.kind in ("ret", "exit")]
-        o2 = [o for o in ex4.run(tms, [], store) if o.kind in ("ret", "exit")]
+        ex4.loop_bound = 2
+        ex4.max_depth = 5
+        ex4.max_paths = 60000
+        store[(RT, F("ovni_rthread", "ready"))] = INT(0)
+        store[(RT, F("ovni_rthread", "finished"))] = INT(0)
+        store[(RP, F("ovni_rproc", "st"))] = INT(prog.enum_val("ST_READY"))
+        ex4.summaries.update({"malloc": lambda ex_, st, a, f, e: [(PTR("EVB", (0,)), {})],
+                              "write": lambda ex_, st, a, f, e: [(a[2] if len(a) > 2 else TOP, {})],
+                              "mkdir": lambda ex_, st, a, f, e: [(INT(0), {})],
+                              "mkpath": lambda ex_, st, a, f, e: [(INT(0), {})]})
+        o1 = [o for o in ex4.run(ti4, [INT(5)], store) if o.kind in ("ret", "exit")]
+        got_init = dict(got)
+        store2 = dict(store)
+        store2[(RT, F("ovni_rthread", "ready"))] = INT(1)
+        o2 = [o for o in ex4.run(af4, [], store2) if o.kind in ("ret", "exit")]
+        got["obs"] = got_init.get("obs")
         ctx.need(o1 and o2 and got.get("obs") and got.get("json"),
                  "cannot resolve the paths of the stream / metadata files (%s)" % got)
         want = "TMP" if relocating else "FINAL"
